@@ -35,7 +35,8 @@ Tags == {[kind |-> "none", at |-> 0]} \cup [kind : {"ann", "lw"}, at : TagAts]
 \*          with depth 1: two boundary commits, each cutting its own branch
 Priors == {[px |-> 0, d1 |-> 0, local |-> FALSE, pb |-> 0]}
           \cup {[px |-> x, d1 |-> d, local |-> l, pb |-> 0] : x \in 1..(N-1), d \in {0, 1, 2}, l \in BOOLEAN}
-          \cup {p \in {[px |-> x, d1 |-> 1, local |-> FALSE, pb |-> y] : x \in 1..(N-1), y \in PBs} : p.px # p.pb}
+          \cup {p \in {[px |-> x, d1 |-> 1, local |-> FALSE, pb |-> y] : x \in 1..N, y \in PBs} : p.px # p.pb}
+             \* px = N: head a does not move between the stages (deepening the same history)
 
 Scenarios ==
   {s \in [dag : Dags, b : BVals, tag : Tags, prior : Priors,
